@@ -845,4 +845,33 @@ theorem roundPrice_eq_last (bs ss : List (Order P)) (hbs : Sorted bs) (hss : Sor
     obtain ⟨⟨y, hy, hyo⟩, ⟨z, hz, hzo⟩⟩ := walk_pairs_mem bs ss pr hpr
     exact ⟨⟨y, by simp [hy], hyo⟩, ⟨z, by simp [hz], hzo⟩⟩
 
+/-- matched volumes are positive when resting volumes are -/
+theorem walk_pairs_pos (bs ss : List (Order P)) (hb : ∀ o ∈ bs, 0 < o.vol)
+    (hs : ∀ o ∈ ss, 0 < o.vol) : ∀ pr ∈ (walk bs ss).1, 0 < pr.vol := by
+  fun_induction walk bs ss with
+  | case1 b bs s ss hnc => simp
+  | case5 ss => simp
+  | case6 bs hne => simp
+  | case2 b bs s ss hnc hlt r ih =>
+    intro pr hpr
+    rcases List.mem_cons.mp hpr with rfl | hpr
+    · exact hb b (by simp)
+    · refine ih (fun o ho => hb o (by simp [ho])) (fun o ho => ?_) pr hpr
+      rcases List.mem_cons.mp ho with rfl | ho
+      · simp; omega
+      · exact hs o (by simp [ho])
+  | case3 b bs s ss hnc hnlt hlt r ih =>
+    intro pr hpr
+    rcases List.mem_cons.mp hpr with rfl | hpr
+    · exact hs s (by simp)
+    · refine ih (fun o ho => ?_) (fun o ho => hs o (by simp [ho])) pr hpr
+      rcases List.mem_cons.mp ho with rfl | ho
+      · simp; omega
+      · exact hb o (by simp [ho])
+  | case4 b bs s ss hnc hnlt hnlt2 r ih =>
+    intro pr hpr
+    rcases List.mem_cons.mp hpr with rfl | hpr
+    · exact hb b (by simp)
+    · exact ih (fun o ho => hb o (by simp [ho])) (fun o ho => hs o (by simp [ho])) pr hpr
+
 end Pams
